@@ -110,7 +110,44 @@ fn pparam_sets() -> Vec<(&'static str, PParams)> {
     vec![("usual", mk(44, 155381, 4310, true)), ("all zero, no cost models", mk(0, 0, 0, false)), ("u64::MAX everywhere", mk(u64::MAX, u64::MAX, u64::MAX, true)), ("huge coefficient", mk(1 << 60, 7, 1 << 60, true))]
 }
 
+const NESTED_SRC: &str = r#"
+party Sender;
+tx with_native_witness(witness: Bytes) {
+    input source { from: Sender, min_amount: fees, }
+    output { to: Sender, amount: source - fees, }
+    cardano::native_witness { script: witness, }
+}
+"#;
+
+/// well-formed CBOR of a native script `all[all[ ... sig(key) ... ]]`, `depth` levels deep (3 bytes per level)
+fn nested_native_script(depth: usize) -> Vec<u8> {
+    let mut script = Vec::new();
+    for _ in 0..depth { script.extend_from_slice(&[0x82, 0x01, 0x81]); }
+    script.extend_from_slice(&[0x82, 0x00, 0x58, 0x1c]);
+    script.extend_from_slice(&[0xaa; 28]);
+    script
+}
+
+/// runs in a CHILD process (a stack overflow aborts the process: it cannot be caught, only observed from outside)
+fn child_nested(depth: usize) {
+    let tx = lower(NESTED_SRC, "with_native_witness");
+    let args: BTreeMap<String, ArgValue> = BTreeMap::from([
+        ("sender".to_string(), ArgValue::Address(addr_bytes(SENDER))),
+        ("witness".to_string(), ArgValue::Bytes(nested_native_script(depth))),
+    ]);
+    let store = FixedStore(vec![lovelace_utxo(SENDER, 50_000_000_000, 0)]);
+    let mut c = compiler(44, 155381, None);
+    let _ = pollster::block_on(tx3_resolver::resolve_tx(AnyTir::V1Beta0(tx), &args, &mut c, &store, 10));
+}
+
 fn main() {
+    if let Ok(d) = std::env::var("VF_CHILD_NESTED_DEPTH") {
+        // on a thread with the default stack of a spawned thread (2 MiB), as a request handler of a server has
+        let depth = d.parse().unwrap_or(1);
+        let h = std::thread::Builder::new().stack_size(2 << 20).spawn(move || child_nested(depth)).unwrap();
+        let _ = h.join();
+        return;
+    }
     std::panic::set_hook(Box::new(|_| {}));
     vf_pipeline::start_watchdog(45);
     let mut cases = 0u64;
@@ -168,6 +205,17 @@ fn main() {
                     }
                 }
             }
+        }
+    }
+    // a byte-string argument that is a deeply nested (well-formed, under 16 KB) native script: Ok or Err - the process must
+    // survive.  Each depth runs in a child process of this very binary.
+    for depth in [1usize, 10, 100, 1000, 5000] {
+        cases += 1;
+        let status = std::env::current_exe().ok().and_then(|exe| std::process::Command::new(exe).env("VF_CHILD_NESTED_DEPTH", depth.to_string()).stdout(std::process::Stdio::null()).stderr(std::process::Stdio::null()).status().ok());
+        match status {
+            Some(st) if st.success() => {}
+            Some(st) => println!("VERIF-WITNESS obligation=c14_pipeline/resolve_tx#reachable-panic fn=resolve_tx input=tx=with_native_witness witness=a native script `all[all[...sig...]]` nested {depth} deep ({} bytes) class=deeply-nested-native-script observed=the process died ({st}) required=Ok or Err", 3 * depth + 32),
+            None => {}
         }
     }
     println!("VERIF-NOTE {resolved} of {cases} assignments resolve to a transaction, the others are refused with an error");
